@@ -22,6 +22,12 @@ inductive Prog (K V R : Type) where
   | read  : K → (V → Prog K V R) → Prog K V R
   | write : K → V → Prog K V R → Prog K V R
 
+/-- sequential composition: run `p`, then continue with `K` applied to its result -/
+def Prog.bind {K V R S : Type} : Prog K V R → (R → Prog K V S) → Prog K V S
+  | .ret r, f => f r
+  | .read k cont, f => .read k (fun v => (cont v).bind f)
+  | .write k v cont, f => .write k v (cont.bind f)
+
 /-- what a thread knows about a cell: `canon` once it has read or written the canonical value -/
 inductive Phase
   | any
